@@ -34,6 +34,10 @@ static void sm_dispose(struct set *set, struct set_node *node)
 {
     if (set->cleanup == SET_MODEL_CLEANUP_FN)
         SET_MODEL_CLEANUP_FN(set_node_data(node));
+#ifdef SET_MODEL_CLEANUP_FN2
+    else if (set->cleanup == SET_MODEL_CLEANUP_FN2)
+        SET_MODEL_CLEANUP_FN2(set_node_data(node));
+#endif
     else
         V_ASSERT(set->cleanup == NULL, "set model: unknown cleanup");
     free(node);
